@@ -8,7 +8,8 @@ RULE = ("hx-loop runs the real bench_loop_threaded (Bencher::with_inputs(..).ben
         "clock: random (sample_count incl. unset/0/< T, sample_size incl. 0/unset, T in 1..4, bench/test mode, counter on/off, "
         "overheads, timer frequency) x scripted generator/call/drop costs (constant, jittered, growing, per-thread skew, "
         "per-thread clock offsets); a second stream aims min_time/max_time at the elapsed time of some round +-1 tick so that "
-        "the 'no time limit reached' premise is both met and not met. The harness prints per-thread call counts, the size of "
+        "the 'no time limit reached' premise is both met and not met; a third runs tuned sizes with max_time ending the run right "
+        "after a tuning round, where the reported iters must still be the recorded samples times the calls each took. The harness prints per-thread call counts, the size of "
         "every round, recorded durations, final sample size, Stats.sample_count/iter_count and the timestamp log; the log "
         "drives the extracted model; the extracted c03_sb is evaluated on the implementation's output. End to end: a real "
         "#[divan::bench] binary (hx-loop-e2e) is run through Divan::main with sample_count/sample_size/threads given on the command "
@@ -59,6 +60,7 @@ def streams(tier, rng):
             base["n"] = rng.randrange(1, 12)
         aimed.extend(L.aim_budget(rng, base, rng.choice(["max", "max", "min"])))
     e2e = L.e2e_cases(rng, 70 if not big else 400)
+    cut = L.tuned_cut_cases(rng, 150 if not big else 3000)
     return [
         L.make_stream("c03-corpus", "c03", L.corpus("C03")),
         L.e2e_stream("c03-e2e-table", e2e),
@@ -66,6 +68,9 @@ def streams(tier, rng):
                       describe="(n, s, T, mode) x cost scripts, no time budget"),
         L.make_stream("c03-budget-premise", "c03", aimed, hist=L.histogram(aimed),
                       describe="explicit size; min_time/max_time at the elapsed time of a round -1/0/+1 tick"),
+        L.make_stream("c03-tuned-cut-by-max-time", "c03", cut, hist=L.histogram(cut),
+                      describe="tuned size, max_time ends the run right after a (mostly doubling) round: Stats.iter_count must be the "
+                               "recorded samples times the calls each of them took"),
     ]
 
 
